@@ -74,6 +74,11 @@ def smiles_pool(ctx, rt, stereo=False, aromatic=False, n_data=None):
             if r and r not in seen:
                 seen.add(r)
                 out.append(r)
+        if "[" in smi:
+            r = gens.explicit_h_spelling(rng, rng.choice(out[-3:]) if out else smi)
+            if r and r not in seen:
+                seen.add(r)
+                out.append(r)
         if any(c in smi for c in "cn") and any(c.isdigit() for c in smi):
             for _k in range(2):
                 r = gens.explicit_ring_closure_bond(rng, rng.choice(out[-3:]) if out else smi)
@@ -870,6 +875,32 @@ def check_C17(ctx, rt):
                 add_violation(ctx, "C17:atom-missing", "not every output atom has an attribution entry", selfies=s, output=out)
         run_decoder_stream(ctx, rt, "decoder-attribution", sels[:rt.n(1200, 30000)], "default",
                            sf.get_preset_constraints("default"), flags="a")
+        # "together with the branch symbols enclosing it": the positions every output atom is attributed to must be
+        # EXACTLY the enclosing branch symbols (attribution-free walk of the derivation, op `encl`, the definition
+        # C17_atom_attribution_exact is stated with) followed by the atom symbol that made it
+        from props import set_table
+        lines, expected, idx = [], [], []
+        set_table(rt, lines, expected, sf.get_preset_constraints("default"))
+        for s in sels[:rt.n(1500, 40000)]:
+            if not sendable(s):
+                continue
+            try:
+                out, maps = sf.decoder(s, attribute=True)
+            except Exception:
+                continue
+            atoms = [m for m in maps if m.token and (m.token[0].isalpha() or m.token[0] == "[")]
+            lines.append("encl\t-\t" + enc(s))
+            expected.append("ok\t" + ";".join(",".join(str(a.index) for a in (m.attribution or [])) for m in atoms))
+            idx.append(s)
+            ctx.evaluations += 1
+        bad = rt.corr("enclosing-branches[default]", lines, expected,
+                      show=lambda i: {"selfies": idx[i - 1] if i > 0 else None})
+        for i in bad[:5]:
+            if i > 0:
+                got = rt.model.run(lines[:1] + [lines[i]])[-1] if rt.model is not None else "?"
+                add_violation(ctx, "C17:enclosing-branches",
+                              "an output atom is not attributed to exactly its enclosing branch symbols and its atom symbol",
+                              selfies=idx[i - 1][:400], reported=expected[i][:300], enclosing=got[:300])
         pool = smiles_pool(ctx, rt, n_data=rt.n(10, 200))
         for smi in pool:
             ctx.evaluations += 1
@@ -1405,8 +1436,14 @@ def check_C19(ctx, rt):
                     rt.rng.shuffle(w)
                 results = [None] * nthreads
 
+                gate = threading.Barrier(nthreads)
+
                 def worker(i):
                     out = []
+                    try:
+                        gate.wait(timeout=60)      # all threads hit the cold caches together
+                    except threading.BrokenBarrierError:
+                        pass
                     for c in work[i]:
                         out.append((c, run_call(c)))
                     results[i] = out
@@ -1421,6 +1458,34 @@ def check_C19(ctx, rt):
                         ctx.distinct.add(c)
                         if r != serial[c]:
                             mism.append((c, r, serial[c]))
+        # cold starts: right after a (re)installation of the table every memo table is empty; many short rounds in
+        # which all threads make their FIRST calls at the same moment (lazy initialisation races live here)
+        sys.setswitchinterval(1e-6)
+        shallow = [c for c in calls if len(c[1]) < 200]
+        for _r in range(rt.n(150, 1500)):
+            if ctx.elapsed() > (1200 if ctx.tier == "quick" else 4000):
+                break
+            S.set_semantic_constraints("default")
+            picks = [[rt.rng.choice(shallow) for _k in range(3)] for _ in range(nthreads)]
+            res = [None] * nthreads
+            gate = threading.Barrier(nthreads)
+
+            def cold(i):
+                try:
+                    gate.wait(timeout=60)
+                except threading.BrokenBarrierError:
+                    pass
+                res[i] = [(c, run_call(c)) for c in picks[i]]
+            ths = [threading.Thread(target=cold, args=(i,)) for i in range(nthreads)]
+            for t in ths:
+                t.start()
+            for t in ths:
+                t.join()
+            for out in res:
+                for c, r in (out or []):
+                    ctx.evaluations += 1
+                    if r != serial[c]:
+                        mism.append((c, r, serial[c]))
     finally:
         sys.setswitchinterval(old)
         fresh_selfies()
